@@ -69,7 +69,8 @@ class RF4CECryptoManager:
         packet.reserved = 1
         (packet.do_build())
         start_of_payload = 2 if packet.frame_type in (1,3) else 1
-        ciphertext = bytes(packet[RF4CE_Hdr:][start_of_payload:])
+        payload_layer = packet[RF4CE_Hdr:].getlayer(start_of_payload)
+        ciphertext = bytes(payload_layer) if payload_layer is not None else b""
         #print(ciphertext.hex())
         return ciphertext, pack("<I", packet.mic)
 
@@ -77,7 +78,8 @@ class RF4CECryptoManager:
         packet.reserved = 1
         (packet.do_build())
         start_of_payload = 2 if packet.frame_type in (1,3) else 1
-        plaintext = bytes(packet[RF4CE_Hdr:][start_of_payload:])
+        payload_layer = packet[RF4CE_Hdr:].getlayer(start_of_payload)
+        plaintext = bytes(payload_layer) if payload_layer is not None else b""
         return plaintext
 
     def decrypt(self, packet, source=None, destination=None, rf4ce_only=False):
